@@ -192,9 +192,10 @@ func (v *Verifier) enumerateCases(fr *FuncRef, fc *FuncContract) []caseSpec {
 }
 
 type Verifier struct {
-	prog     *Program
-	specs    *Specs
-	lastExec *Exec
+	prog      *Program
+	specs     *Specs
+	lastExec  *Exec
+	schedMode bool
 }
 
 func modeOf(name string) Mode {
@@ -235,6 +236,7 @@ func (ex *Exec) resetPath() {
 	ex.symCount = 0
 	ex.ordSeen = nil
 	ex.hex = nil
+	ex.bigVals = nil
 	for k := range ex.ghost {
 		delete(ex.ghost, k)
 	}
@@ -305,6 +307,10 @@ func (ex *Exec) setupParams(cs caseSpec) []Value {
 			mt := machType(p.typ)
 			switch mt.Kind {
 			case "int", "bool":
+				if n, ok := cs.lens[p.name]; ok {
+					args = append(args, ex.constOf(bi(int64(n)), mt))
+					continue
+				}
 				t := ex.namedWord(p.name, mt)
 				ex.inputs[p.name] = t
 				args = append(args, t)
@@ -320,6 +326,9 @@ func (ex *Exec) setupParams(cs caseSpec) []Value {
 }
 
 func (ex *Exec) symObj(name string, t types.Type) *Obj {
+	if strings.Count(name, "^") > 2 {
+		ex.unsupported("recursive pointer-holding data structure %s (type %s) is outside the supported subset", name, t)
+	}
 	o := ex.st.newObj(name, t)
 	var leaves []leafInfo
 	leafTypes(t, name, &leaves)
@@ -352,6 +361,7 @@ func (ex *Exec) entryCtx() *SpecCtx {
 // VerifyFunc symbolically executes fr against its contract and returns the obligations.
 func (v *Verifier) VerifyFunc(fr *FuncRef, fc *FuncContract) (obs []*Oblig, err error) {
 	ex := v.newExec(fr, fc)
+	ex.schedMode = v.schedMode
 	defer func() {
 		if r := recover(); r != nil {
 			if ee, ok := r.(engineError); ok {
@@ -365,7 +375,12 @@ func (v *Verifier) VerifyFunc(fr *FuncRef, fc *FuncContract) (obs []*Oblig, err 
 	for _, cs := range cases {
 		ex.pattern = cs.label
 		ex.script = nil
+		npaths := 0
 		for {
+			npaths++
+			if npaths > 4000 {
+				ex.unsupported("more than 4000 paths in one aliasing case: path explosion")
+			}
 			ex.runPath(cs)
 			// next decision vector
 			for len(ex.script) > 0 && !ex.script[len(ex.script)-1] {
@@ -376,6 +391,7 @@ func (v *Verifier) VerifyFunc(fr *FuncRef, fc *FuncContract) (obs []*Oblig, err 
 			}
 			ex.script[len(ex.script)-1] = false
 		}
+		ex.schedObligations()
 	}
 	v.lastExec = ex
 	return ex.obligs, nil
@@ -389,6 +405,10 @@ func (ex *Exec) runPath(cs caseSpec) {
 	for name, s := range ghostDecls {
 		g := Var("ghost."+name, s)
 		ex.ghost[name] = g
+	}
+	ex.trace = nil
+	if ex.schedMode {
+		ex.trace = Var("tr@entry", STr)
 	}
 	fm := &Frame{pkg: ex.fn.Pkg, fn: ex.fn, vars: map[types.Object]*Obj{}}
 	ex.frames = []*Frame{fm}
@@ -442,6 +462,9 @@ func (ex *Exec) runPath(cs caseSpec) {
 			}
 		}()
 		ex.execBlock(ex.fn.Decl.Body.List)
+		if ex.trace != nil {
+			ex.segs = append(ex.segs, schedSeg{"to-return", ex.trace, ex.hyps(), ex.pathLabel()})
+		}
 		ex.atReturn(fm.results)
 	}()
 	registerRanges(ex.st)
@@ -519,6 +542,11 @@ func (ex *Exec) atReturn(results []Value) {
 			}
 		case SliceV:
 			ok = r.Abs != nil || r.Obj != nil && !r.Obj.Pre && !r.Obj.Global
+			if strings.HasPrefix(how, "fresh:$") {
+				if t, isT := ex.specVars[how[7:]].(*Term); isT && t.IsConst() {
+					how = "fresh:" + t.val.String()
+				}
+			}
 			if strings.HasPrefix(how, "fresh:") {
 				okLen := false
 				for _, a := range strings.Split(how[6:], "|") {
@@ -602,3 +630,82 @@ func (ex *Exec) atReturn(results []Value) {
 }
 
 var ghostDecls = map[string]Sort{"rnd": SInt, "rndfail": SBool}
+
+// schedObligations: within one aliasing case, all paths of a segment kind must execute the same sequence of
+// module-function entries (C19). Paths satisfying the contract's sched_except condition are exempt.
+func (ex *Exec) schedObligations() {
+	if !ex.schedMode || len(ex.segs) == 0 {
+		ex.segs = nil
+		return
+	}
+	groups := map[string][]schedSeg{}
+	var order []string
+	for _, sg := range ex.segs {
+		root := sg.trace
+		for root.op == "app" && len(root.args) == 1 {
+			root = root.args[0]
+		}
+		k := sg.kind + " from " + root.name
+		if _, ok := groups[k]; !ok {
+			order = append(order, k)
+		}
+		groups[k] = append(groups[k], sg)
+	}
+	var except *Term
+	if ex.fc.SchedExcept != nil {
+		c := &SpecCtx{ex: ex, vars: ex.specVars, old: ex.entry, inOld: true, pkg: ex.fn.Pkg}
+		except = c.tryTerm(ex.fc.SchedExcept)
+		if except.IsTrue() { // not evaluable in this case (nil parameter): no exception applies
+			except = nil
+		}
+	}
+	hasLoop := false
+	for _, k := range order {
+		if strings.HasPrefix(k, "entry-to-loop") {
+			hasLoop = true
+		}
+	}
+	for _, k := range order {
+		g := groups[k]
+		if hasLoop && k == "to-return from tr@entry" {
+			// a path that returns without reaching the loop the other paths reach: only the documented exception may do so
+			for _, sg := range g {
+				goal := BoolC(false)
+				if except != nil {
+					goal = except
+				}
+				o := ex.oblige("sched", "uniform:early-return", goal, "only the documented shortcut may bypass the loop")
+				o.Hyps = sg.hyps
+				o.Sub = ex.pattern + "/" + sg.path
+				o.Props = []string{"C19"}
+			}
+			continue
+		}
+		ref := g[0].trace
+		for _, sg := range g { // the reference is the longest schedule (shortcut paths are shorter)
+			if depth(sg.trace) > depth(ref) {
+				ref = sg.trace
+			}
+		}
+		for _, sg := range g {
+			goal := Eq(sg.trace, ref)
+			if except != nil {
+				goal = Or(except, goal)
+			}
+			o := ex.oblige("sched", "uniform:"+k, goal, "all paths of this segment enter the same module functions in the same order")
+			o.Hyps = sg.hyps
+			o.Sub = ex.pattern + "/" + sg.path
+			o.Props = []string{"C19"}
+		}
+	}
+	ex.segs = nil
+}
+
+func depth(t *Term) int {
+	n := 0
+	for t.op == "app" && len(t.args) == 1 {
+		t = t.args[0]
+		n++
+	}
+	return n
+}
